@@ -72,6 +72,7 @@ type tlog struct {
 	started   map[int]int
 	holdGate  chan struct{}
 	holdEnter chan struct{}
+	spawnCtx  context.Context // if set, every node is spawned WithContext(spawnCtx)
 }
 
 var treeSeq int64
@@ -102,8 +103,11 @@ func (a *treeActor) Receive(c *actor.Context) {
 		a.lg.mu.Unlock()
 		for _, k := range a.n.kids {
 			kn := a.tree[k]
-			c.SpawnChild(func() actor.Receiver { return &treeActor{n: kn, tree: a.tree, lg: a.lg} }, "n", actor.WithID(fmt.Sprint(kn.idx)),
-				actor.WithMaxRestarts(50), actor.WithRestartDelay(0), actor.WithInboxSize(4))
+			opts := []actor.OptFunc{actor.WithID(fmt.Sprint(kn.idx)), actor.WithMaxRestarts(50), actor.WithRestartDelay(0), actor.WithInboxSize(4)}
+			if a.lg.spawnCtx != nil {
+				opts = append(opts, actor.WithContext(a.lg.spawnCtx))
+			}
+			c.SpawnChild(func() actor.Receiver { return &treeActor{n: kn, tree: a.tree, lg: a.lg} }, "n", opts...)
 		}
 		if a.n.selfStop {
 			c.Engine().Poison(c.PID())
@@ -222,8 +226,17 @@ func c08Tree(c *caseCtx) (res caseResult) {
 		}
 		n.crash = ok
 	}
-	root := e.Spawn(func() actor.Receiver { return &treeActor{n: tree[0], tree: tree, lg: lg} }, "tree", actor.WithID("0"), actor.WithInboxSize(4),
-		actor.WithMaxRestarts(50), actor.WithRestartDelay(0))
+	rootOpts := []actor.OptFunc{actor.WithID("0"), actor.WithInboxSize(4), actor.WithMaxRestarts(50), actor.WithRestartDelay(0)}
+	ctxMode := r.Intn(4) // 0,1: default context; 2: spawn context cancelled before the shutdown; 3: already cancelled at spawn
+	var cancelSpawn context.CancelFunc
+	if ctxMode >= 2 {
+		lg.spawnCtx, cancelSpawn = context.WithCancel(context.Background())
+		rootOpts = append(rootOpts, actor.WithContext(lg.spawnCtx))
+		if ctxMode == 3 {
+			cancelSpawn()
+		}
+	}
+	root := e.Spawn(func() actor.Receiver { return &treeActor{n: tree[0], tree: tree, lg: lg} }, "tree", rootOpts...)
 	res.Desc = fmt.Sprintf("tree nodes=%d", len(tree))
 	alive := make([]bool, len(tree))
 	var markAlive func(i int, v bool)
@@ -359,6 +372,9 @@ func c08Tree(c *caseCtx) (res caseResult) {
 			}
 		}
 	}
+	if ctxMode == 2 {
+		cancelSpawn() // the common 'cancel(); Poison(root)' sequence
+	}
 	var wg sync.WaitGroup
 	thirdCtx := make([]context.Context, len(third))
 	startCh := make(chan struct{})
@@ -414,9 +430,9 @@ func c08Tree(c *caseCtx) (res caseResult) {
 		}
 	}
 	if depth >= 1 {
-		res.Sig = sigHash("tree", len(tree), depth, len(third), graceful, top != 0, len(inSelf))
+		res.Sig = sigHash("tree", len(tree), depth, len(third), graceful, top != 0, len(inSelf), ctxMode)
 	}
-	res.Desc = fmt.Sprintf("tree nodes=%d depth=%d selfstop=%d third=%v top=%d graceful=%v", len(tree), depth, len(inSelf), third, top, graceful)
+	res.Desc = fmt.Sprintf("tree nodes=%d depth=%d selfstop=%d third=%v top=%d graceful=%v spawnCtxMode=%d", len(tree), depth, len(inSelf), third, top, graceful, ctxMode)
 	if c.n < 2 || res.Verdict == vViolated {
 		var shape []string
 		for _, n := range tree {
